@@ -150,14 +150,37 @@ Definition lost_session (k : c09case) : bool :=
      allow / skip list) - a drift can then never be repaired;
    6 a source with MachineTick <> 0 while /repo lacks one of the machine-tick
      repairs of the client side;
+   10 shallow clocks and a reply computed against a stale lastPushData (after
+     a Sync) that the weak shallow checksum accepted by coincidence;
    8 per-mutation sync and a reconnect (RemoteHello keeps the tracer's
      dataQueue: the next chain starts below the re-memorised lastPushData);
    2 shallow clocks; 3 per-mutation sync; 1 a reply was overtaken by a push;
    7 reconnect; 4 a full Sync was applied; 0 none of these.
    (old code: 4 was "silent push", 8 "placeholder pushed", 5 "a Sync happened") *)
+(* shallow clocks: a reply accepted although the client did not hold what the
+   server believed (the queue tick the client ends with is not the one of the
+   exported data, and no Sync was needed): the shallow checksum - number of
+   tracked states + queue tick + machine tick - matched by coincidence *)
+Fixpoint belief_coinc (p : pcfg) (pushes : bool) (s : st) (l : list orec) : bool :=
+  match l with
+  | [] => false
+  | o :: r =>
+    let s' := fst (run_step p pushes s o) in
+    (match o_step o with
+     | OClient _ _ | ORace true _ _ _ _ _ =>
+       negb (o_timeout o)
+       && negb (cl_q (st_cl s') =? d_q (sv_last (st_sv s')))
+       && Bool.eqb (st_synced s) (st_synced s')
+       && Nat.eqb (cl_errs (st_cl s)) (cl_errs (st_cl s'))
+     | _ => false
+     end) || belief_coinc p pushes s' r
+  end.
+
 Definition cls (k : c09case) : N :=
   let s := fst (model_final k) in
   if lost_session k then 9
+  else if shallow (p_codec (k_p k))
+          && belief_coinc (k_p k) (k_pushes k) (init (k_p k) (k_hello_src k)) (k_steps k) then 10
   else if negb (Nat.eqb (cl_errs (st_cl s)) 0) then 5
   else if negb (s_m (k_hello_src k) =? 0)
           && negb (p_hello_m (k_p k) && p_sync_m (k_p k)) then 6
